@@ -249,9 +249,15 @@ func init() {
 }
 
 func TestC20_Deletion(t *testing.T) {
+	if _, err := getSystem("deletion", 3, 2); err != nil {
+		t.Fatalf("harness: %v", err)
+	}
 	RunRapid(t, Check[c20Case]{Prop: "C20", Test: "TestC20_Deletion", Gen: genC20("deletion"), Run: runC20})
 }
 
 func TestC20_Insertion(t *testing.T) {
+	if _, err := getSystem("insertion", 3, 2); err != nil {
+		t.Fatalf("harness: %v", err)
+	}
 	RunRapid(t, Check[c20Case]{Prop: "C20", Test: "TestC20_Insertion", Gen: genC20("insertion"), Run: runC20})
 }
